@@ -92,7 +92,52 @@ def mutation_sites(repo, problems):
     return sorted(rows)
 
 
+def vectorising(repo, gj, problems):
+    """for every element documented `vectorise: true`: does the function it calls fall through to
+    `vectorise(<itself>, …)` (the dispatch skeleton)?"""
+    tree = ast.parse(open(os.path.join(repo, "vyxal", "elements.py"), encoding="utf-8").read())
+    fns = {n.name: n for n in tree.body if isinstance(n, ast.FunctionDef)}
+
+    def selfvec(name):
+        fn = fns.get(name)
+        if fn is None:
+            return False
+        for n in ast.walk(fn):
+            if (isinstance(n, ast.Call) and isinstance(n.func, ast.Name) and n.func.id == "vectorise" and n.args
+                    and isinstance(n.args[0], ast.Name) and n.args[0].id == name):
+                return True
+        return False
+
+    doc = {}
+    for d in gj["yaml"]:
+        if not d["modifier"]:
+            doc.setdefault(d["key"], d["vectorise"])
+    rows = []
+    for e in gj["elements"]:
+        if doc.get(e["key"]) is not True:
+            continue
+        if e["kind"] == "fn":
+            ok = selfvec(e["helper"])
+        else:
+            try:
+                called = [n.func.id for n in ast.walk(ast.parse(e["code"])) if isinstance(n, ast.Call) and isinstance(n.func, ast.Name)]
+            except SyntaxError:
+                called = []
+            ok = any(selfvec(c) for c in called if c in fns)
+        rows.append((e["key"], ok))
+    return rows
+
+
 def generate(repo, files, gj, problems):
+    vs = vectorising(repo, gj, problems)
+    files["Vectorising.lean"] = "\n".join([
+        "-- GENERATED by tools/extract.py from the repository's current source. Do not edit.",
+        "namespace Gen", "",
+        "/-- elements documented `vectorise: true` (documents/knowledge/elements.yaml) and whether the function the element calls",
+        "    falls through to `vectorise(<itself>, …)` — the dispatch skeleton of Model/Vectorise.lean -/",
+        "def documentedVectorising : List (List Nat × Bool) := [",
+        ",\n".join("  ([%s], %s)" % (", ".join(str(ord(c)) for c in k), "true" if ok else "false") for k, ok in vs) + "]", "", "end Gen", ""])
+    gj["vectorising"] = [[k, ok] for k, ok in vs]
     ms = mutation_sites(repo, problems)
     files["Mutation.lean"] = "\n".join([
         "-- GENERATED by tools/extract.py from the repository's current source. Do not edit.",
